@@ -314,4 +314,70 @@ theorem stationaryDist_unpack [DecidableEq K] (sol lyap : M K → M K → Option
       · rw [toMat_mmul hG' hsigx]
 
 end
+/-! ### deviations from stationary moments, partial sums of the geometric series -/
+
+section
+variable {K : Type} [CommRing K] {n m k l : ℕ}
+
+/-- one pass of lines 280-282 as matrices -/
+theorem momentState_step (A C mu0 Sig0 : M K) (hA : Dim A n n) (hC : Dim C n m)
+    (hmu : Dim mu0 n 1) (hS : Dim Sig0 n n) (t : ℕ) :
+    toMat n 1 (momentState A C mu0 Sig0 (t + 1)).1 = toMat n n A * toMat n 1 (momentState A C mu0 Sig0 t).1 ∧
+    toMat n n (momentState A C mu0 Sig0 (t + 1)).2 =
+      toMat n n A * toMat n n (momentState A C mu0 Sig0 t).2 * (toMat n n A)ᵀ +
+        toMat n m C * (toMat n m C)ᵀ := by
+  obtain ⟨d1, d2, -, -⟩ := momentState_spec A C mu0 Sig0 hA hC hmu hS t
+  have hAt : Dim (mT A) n n := dim_mT hA
+  have hAS : Dim (mmul A (momentState A C mu0 Sig0 t).2) n n := dim_mmul hA d2
+  refine ⟨?_, ?_⟩
+  · show toMat n 1 (mmul A (momentState A C mu0 Sig0 t).1) = _
+    rw [toMat_mmul hA d1]
+  · show toMat n n (madd (mmul (mmul A (momentState A C mu0 Sig0 t).2) (mT A)) (mmul C (mT C))) = _
+    rw [toMat_madd (dim_mmul hAS hAt), toMat_mmul hAS hAt, toMat_mmul hA d2, toMat_mT hA,
+      toMat_mmul hC (dim_mT hC), toMat_mT hC]
+
+/-- if `μ = A μ` and `S = A S A' + CC'`, the moment sequence deviates from them by exactly
+    `A^t (μ₀ − μ)` and `A^t (Σ₀ − S) A'^t` -/
+theorem momentState_deviation (A C mu0 Sig0 : M K) (hA : Dim A n n) (hC : Dim C n m)
+    (hmu : Dim mu0 n 1) (hS : Dim Sig0 n n) (mus : Matrix (Fin n) (Fin 1) K)
+    (Ss : Matrix (Fin n) (Fin n) K) (hmus : toMat n n A * mus = mus)
+    (hSs : Ss = toMat n n A * Ss * (toMat n n A)ᵀ + toMat n m C * (toMat n m C)ᵀ) (t : ℕ) :
+    toMat n 1 (momentState A C mu0 Sig0 t).1 - mus = toMat n n A ^ t * (toMat n 1 mu0 - mus) ∧
+    toMat n n (momentState A C mu0 Sig0 t).2 - Ss =
+      toMat n n A ^ t * (toMat n n Sig0 - Ss) * (toMat n n A)ᵀ ^ t := by
+  induction t with
+  | zero => simp [momentState]
+  | succ t ih =>
+    obtain ⟨s1, s2⟩ := momentState_step A C mu0 Sig0 hA hC hmu hS t
+    obtain ⟨i1, i2⟩ := ih
+    refine ⟨?_, ?_⟩
+    · rw [s1, pow_succ', Matrix.mul_assoc, ← i1, Matrix.mul_sub, hmus]
+    · rw [s2, pow_succ', pow_succ]
+      have : toMat n n A * toMat n n A ^ t * (toMat n n Sig0 - Ss) * ((toMat n n A)ᵀ ^ t * (toMat n n A)ᵀ)
+          = toMat n n A * (toMat n n A ^ t * (toMat n n Sig0 - Ss) * (toMat n n A)ᵀ ^ t) * (toMat n n A)ᵀ := by
+        simp only [Matrix.mul_assoc]
+      rw [this, ← i2]
+      conv_lhs => rw [hSs]
+      simp only [Matrix.mul_sub, Matrix.sub_mul]
+      abel
+
+/-- `S = x + B S` unrolled: `S = Σ_{j<N} B^j x + B^N S` -/
+theorem geometric_partial_sums (B : Matrix (Fin n) (Fin n) K) (S x : Matrix (Fin n) (Fin 1) K)
+    (h : (1 - B) * S = x) (N : ℕ) :
+    S = (∑ j ∈ range N, B ^ j) * x + B ^ N * S := by
+  have hS : S = x + B * S := by
+    rw [← h, Matrix.sub_mul, Matrix.one_mul]; abel
+  induction N with
+  | zero => simp
+  | succ N ih =>
+    rw [Finset.sum_range_succ, Matrix.add_mul, pow_succ, Matrix.mul_assoc]
+    have : B ^ N * (B * S) = B ^ N * S - B ^ N * x := by
+      have h2 := congrArg (B ^ N * ·) hS
+      simp only [Matrix.mul_add] at h2
+      rw [h2]; abel
+    rw [this]
+    calc S = (∑ j ∈ range N, B ^ j) * x + B ^ N * S := ih
+      _ = _ := by abel
+
+end
 end QE.C12
